@@ -60,6 +60,13 @@ def ev_ops(name):
         "clone": ["clone 0 2"],
         "t:import": [op_run("import vmod;", slot=c1)],
         "t:ctor": [op_run("import vmod; q1 = vmod(1);", slot=c1)],
+        # a trusted context stays unrestricted whatever else the host does with it
+        "t:purge": ["purge 1"],
+        "t:purgewm": ["purgewm 1"],
+        "t:include": [op_run('include "%s";' % inc_path(), slot=c1)],
+        "t:import-path": [op_run('import "%s";' % lib_path(), slot=c1)],
+        "t:ctor-fn": [op_run("import vmod; function tmk() return vmod is begin return vmod(2); end; q2 = tmk();", slot=c1)],
+        "t:clone-ctor": ["clone 1 3", op_run("import vmod; q3 = vmod(3);", slot=3)],
         "u:import": [op_run("import vmod;", slot=c0)],
         "u:import-path": [op_run('import "%s";' % lib_path(), slot=c0)],
         "u:include": [op_run('include "%s";' % inc_path(), slot=c0)],
@@ -81,7 +88,7 @@ def ev_ops(name):
     return table[name]
 
 
-EVENTS = ["grant-vmod", "grant-vmod2", "clear", "clone", "t:import", "t:ctor", "u:import", "u:import-path", "u:include", "u:ctor", "u:ctor-fn",
+EVENTS = ["grant-vmod", "grant-vmod2", "clear", "clone", "t:import", "t:ctor", "t:purge", "t:purgewm", "t:include", "t:import-path", "t:ctor-fn", "t:clone-ctor", "u:import", "u:import-path", "u:include", "u:ctor", "u:ctor-fn",
           "u:ctor-copy", "u:ctor-upper", "u:decl", "u:param", "u:nullcall", "u:compile", "u:run-compiled", "u:call-fn", "c:ctor", "c:ctor-fn",
           "c:run-compiled", "c:call-fn"]
 
@@ -113,9 +120,11 @@ def step(p, name):
     if name == "t:import":
         p.loaded = True
         return True, "ok", False
-    if name == "t:ctor":
+    if name in ("t:ctor", "t:include", "t:ctor-fn", "t:clone-ctor", "t:import-path"):
         p.loaded = True
-        return True, "ok", True
+        return True, "ok", name != "t:import-path"
+    if name in ("t:purge", "t:purgewm"):
+        return True, "ok", False
     if name == "u:import":
         p.loaded = True
         return True, "ok", False
